@@ -448,7 +448,8 @@ func init() {
 				t := randTree(r, randGenCfg(r))
 				st, costs := randStateless(r), randCosts(r)
 				for _, mask := range []int{15, r.Intn(16), r.Intn(16)} {
-					rc := &RunCfg{Opts: optSubset(mask, r.Bool()), Stateless: st, Costs: costs}
+					// a sixth of the cases in undefined-variable mode (every variable has the same sentinel key)
+					rc := &RunCfg{Opts: optSubset(mask, r.Bool()), Stateless: st, Costs: costs, Undefined: r.Intn(6) == 0}
 					addEval(c, b, &EvalSpec{Tree: t, RC: rc, Bind: randBinding(r), DoEval: true, Tags: []string{fmt.Sprintf("subset:%d", mask)}})
 				}
 			}
